@@ -271,12 +271,17 @@ def gxx_batch(args):
                     f.write("  pr(%d, v%d);\n" % (i, i))
             f.write("  return 0;\n}\n")
     write(set())
-    rc, so, se = sh(["g++", "-std=c++17", "-fsyntax-only", "-fmax-errors=0", "-w", src], timeout=900)
+    # "defined" = accepted as a constant expression by BOTH compilers: g++ 12 loses the overflow flag of
+    # `INT_MIN / -1`, `INT_MAX + 1` under && || ?: (accepts them), clang 14 accepts floating results that are
+    # infinite; each is strict where the other is lax
     bad = set()
-    for m in re.finditer(r"^%s:(\d+):\d+: error" % re.escape(src), se, re.M):
-        bad.add(int(m.group(1)) - n0)
-    if rc != 0 and not bad:
-        return ["?"] * len(texts), "g++ failed without line diagnostics: " + se[-300:]
+    for cmd in (["g++", "-std=c++17", "-fsyntax-only", "-fmax-errors=0", "-w", src],
+                ["clang++-14", "-std=c++17", "-fsyntax-only", "-ferror-limit=0", "-w", src]):
+        rc, so, se = sh(cmd, timeout=900)
+        found = set(int(m.group(1)) - n0 for m in re.finditer(r"^%s:(\d+):\d+: error" % re.escape(src), se, re.M))
+        if rc != 0 and not found:
+            return ["?"] * len(texts), "%s failed without line diagnostics: %s" % (cmd[0], se[-300:])
+        bad |= found
     write(bad)
     rc, so, se = sh(["g++", "-std=c++17", "-O0", "-w", src, "-o", exe], timeout=900)
     if rc != 0:
@@ -330,7 +335,13 @@ CORPUS_EXPRS = [
     ("u:! L:1.5", "!1.5"),                                            # F35
     ("b:&& L:1.5 L:2", "1.5 && 2"),                                   # F35
     ("b:|| L:0.0 L:0", "0.0 || 0"),                                   # F35
+    ("b:- L:1 u:- L:2", "1 - -2"),                                    # F39 (parser)
+    ("b:& p b:+ L:0 L:2 u:- L:1", "(0 + 2) & -1"),                    # F39
+    ("b:+ L:2 u:! L:0101", "2 + !0101"),                              # F39
     ("t L:1 L:2 b:/ L:1 L:0", "1 ? 2 : 1 / 0"),
+    ("t L:1 L:2 t L:0 L:3 L:4", "1 ? 2 : 0 ? 3 : 4"),                 # F40 (parser): groups right-to-left
+    ("t L:1 t L:0 L:2 L:3 L:4", "1 ? 0 ? 2 : 3 : 4"),                 # F40: conditional in the middle operand
+    ("t L:0 t L:1 L:2 L:3 t L:0 L:5 L:6", "0 ? 1 ? 2 : 3 : 0 ? 5 : 6"),
     ("b:+ L:true L:true", "true + true"),
     ("u:- L:true", "-true"),
     ("b:* L:2147483648u L:3", "2147483648u * 3"),
